@@ -129,6 +129,15 @@ pub fn main(args: &[String]) -> i32 {
             let gr = g.regroup(&r);
             let w: Vec<String> = (0..2 + g.rng.below(4)).map(|_| g.small_word()).collect();
             (r, gr, w)
+        } else if case % 6 == 1 {
+            // focused stream: edge rules (unequal input/output lengths, `$`, `%`) over the small inventory, followed by ordinary rules:
+            // what an earlier rule leaves behind in the structure is what the later ones see only in the one-shot run
+            let mut r: Vec<String> = (0..1 + g.rng.below(2)).map(|_| g.edge_rule()).collect();
+            for _ in 0..1 + g.rng.below(2) { r.push(g.basic_rule()); }
+            if g.rng.chance(1, 2) { r.push(["% > [+stress] / _ % #", "V > [+long] / _ $", "s > z / V _ V", "t > d / V $ _"][g.rng.below(4)].to_string()); }
+            let gr = g.regroup(&r);
+            let w: Vec<String> = (0..2 + g.rng.below(3)).map(|_| { let mut t = g.small_word(); if g.rng.chance(1, 2) { let v = ["a", "i", "u"][g.rng.below(3)]; t = format!("{t}.{v}.{}", g.small_word()); } t }).collect();
+            (r, gr, w)
         } else { (rules, groups, words) };
         match prop {
             "glue" => glue(&mut g, &mut st, case, &groups, &words),
@@ -201,6 +210,19 @@ fn c10(g: &mut Gen, st: &mut Stats, case: usize, rules: &[String], groups: &[Vec
             for (w, m) in words[i].split(' ').zip(mid_out[i].split(' ')) {
                 let ms = match guarded(|| verif::run_structural(&g1, w, &[])) { Out::Ok(v) => v.last().cloned(), _ => return "stage1".into() };
                 let Some(ms) = ms else { continue };
+                // an intermediate word with an empty syllable cannot be written down (C08's domain): name the rule shape that produced it
+                if ms.sylls.iter().any(|s| s.segs.is_empty()) {
+                    let mut shape = "unknown";
+                    for j in 0..r1.len() {
+                        let gj = groups_of(&[r1[..=j].to_vec()]);
+                        if let Out::Ok(v) = guarded(|| verif::run_structural(&gj, w, &[])) { if v.last().map_or(false, |x| x.sylls.iter().any(|s| s.segs.is_empty())) {
+                            let r = r1[j].split(";;").next().unwrap_or("");
+                            let out = r.split(|c| c == '>' || c == '→').nth(1).unwrap_or("").split(|c| c == '/' || c == '|').next().unwrap_or("");
+                            shape = if out.contains('$') { "boundary-in-output" } else if out.contains('&') { "metathesis" } else if out.contains('⟨') || out.contains('<') { "structure-in-output" } else if out.trim() == "*" || out.trim() == "∅" { "deletion" } else { "substitution" };
+                            break } }
+                    }
+                    return format!("empty-syllable:{shape}");
+                }
                 match guarded(|| WordH::parse(m, &[])) {
                     Out::Ok(p) => {
                         let ps = p.structure();
